@@ -127,3 +127,43 @@ pub fn residual(raw: &RawCnf, model: &[Option<bool>]) -> Vec<Vec<(usize, bool)>>
     out.dedup();
     out
 }
+
+/// witness 3 (finding F17): a collision of the *repaired* hash (products modulo the prime
+/// 2^127 - 1), constructed by a sub-agent with discrete logarithms (2^127 - 2 is smooth) and a
+/// generalised-birthday search over the sign choices.  One character per clause, in clause order:
+/// `A` = (x0 | x1 | x2), `B` = (!x0 | x3 | x4); the CNF denotes x0 ? (x3|x4) : (x1|x2).  The
+/// product of the primes of the x1/x2 occurrences equals that of the x3/x4 occurrences modulo
+/// 2^127 - 1, so the states after deciding x0 and after deciding !x0 have the same `cur_hash()`
+/// although their residual formulas differ.
+pub const LAYOUT3: &str = concat!(
+    "BBBABABBBBBBBBBBBBABBAAABABBABAAAABAABAABABABBBBABABBABABABBBBBABBBABBAABBABABAAAABBBBABBBAAAABB",
+    "BBAABAABBBBBBBAABBBAAABABABBAAAAAABAAABABAABBBBBBBAAAABABBAAAABAAABBBBAABBBBBBABBBBABBBABABAAAAB",
+    "AABABBABBAAAABABBBABBABBAAAABBABBABAAAAAABBBABBAAAAABABBAAABABBBBBAAABAABBAABBBBBABBBAAABBAABBBB",
+    "ABBBBBBABABABAAAAABBABBBBBABABABBAAABAAABBABABBBBAAABBBABAAAAABBBBABAAAABAAABABBBAABBBAABBBBAAAB",
+    "BABABABABBBBBABBBABBBBBBBAAAABAAABBBABABBBABAAABBBAAABAABBAAAAAABBAAAABBBBBBAABABAABABAABBAABBAB",
+    "AAAAABAABAABBBABBABAABBBABABAABABAABBABABAABBBAAABBAAABABAABBABABBBABABAAAABAABBABBABBABAAABABBB",
+    "AABAABBABBAAAABABBBBBABAAAABABBABBBBABBBBBAAABBBAAABBBBAABBAAABAABABABBAAAAABBBBBBAABAABABBAABBB",
+    "AABAAABABBBAABAABBBAABABAAAAABBAABBBBABBBAABABBAAAABBBBBBBABBBAAABBABABABABAABBABBAAAAABBAABAAAB",
+    "ABBBAAABABABBBABBBBAABBABBBABBBBAAAABBBBBBAABABABABAAABAABAABBABABBABABAAABAABABBABBBAABBBBBAABA",
+    "AAAABAAABBABAABBAABAAABAAABABBBAAABBBAAABBBBABBAAAAABBBBBABAAABBBABBAAABBBBBAAAABBBAAABBBAABABAB",
+    "BBBABBBAABBBAABABABBAABABAABABAAAAAAABBABABAABABABBBAABAABABBBAAAAABABBBBAABABAAABBABBBAABBAABAA",
+    "AABABBAABAABABAABABAAABAAAAAABBABAAAAAAAABBAABBBBBAABBBBBABBAABAAAAAAAABAAAABBBAAAAAAAAAABABABBB",
+    "BABBBABBAAABAABBBBBBAAABBAAABBBABABBABAABABABAABAAAABAAAAAAABABAABBBABBBAAABBABBBAAAABBABBBBBBBA",
+    "ABAABAAAABABABABBAABABBABBBAAAAAABAABBBABABABAABABBBABBAABBAABBBABABBBBABBABAABAAABABBBAAAAABAAB",
+    "BBABBBABAABABBABAABBABAABAABBBAABBAAABAABABABBABBBBBBBBBABABABBBBBBBABAAABAAAABBBAAAAAAAABBABBAA",
+    "ABBABAABABBBABBAAABAAABBBABABABABABABABAAAAAAABBAABBBBAABAAAAAAABBBAAABABAABBBBABAAABABBBAAAABBA",
+    "BBABABAABBABBAABABBABAABAABAABABBABAAAAAAAABABAABBAABABABBABABBABBABBABBBBBAABABABABAAABAAAAABBB",
+    "AAABBBABBBBABBAABBAABAABAABBBBAABBABABABABBAAAABBBAABBBBBBBABBBBBABBBABABABBBABBABAABABABBABBBAA",
+    "BABBAABAAAABABAABAABAAAABBBABBBBAABBABBABBBABABBAABBBBBAAAABAABBBABBAAABABABAABABABABABBBBBBABBA",
+    "AAABABBAABABABBABBABBAAABABABABBBBABBBBAABABABBABAAAAABBABBAAABABABBBBABAABABAABABBAAABBAABABBAA",
+    "ABBAABBBABAAAAAAABBBABBBAAAAABABABBBABBABBBBBBABBABBBBAAABABBABABBAABBBBAAABABABABBBBBBAAAAABBBB",
+    "ABBBBAABABBBAAABBAABBAABBBBBBBBBBAAAAABABAAAAABBABBABBBBBABBABBABAAAAABABBABBBAABBAAAAABAAAABBAB",
+    "BBBBAAABAABAABABBAAABBBAABBAAABBABABABABABABAAABAAAABBAAABABABBB",
+);
+
+pub fn witness3() -> RawCnf {
+    LAYOUT3
+        .chars()
+        .map(|ch| if ch == 'A' { vec![(0, true), (1, true), (2, true)] } else { vec![(0, false), (3, true), (4, true)] })
+        .collect()
+}
